@@ -486,7 +486,8 @@ class Fn:
         return out
 
     def lambdas(self):
-        return [f for f in self.facts.fns if f.parent == self.id]
+        adopted = set(self.raw.get("adopted", []))
+        return [f for f in self.facts.fns if f.parent == self.id or f.id in adopted]
 
     def reachable_blocks(self, eh=True):
         seen = set()
